@@ -11,7 +11,7 @@
 From AV Require Import Base.Bytes Base.Outcome Hash.HashModel Spec.SpecOps Spec.SpecReal Hash.HashRealElement Hash.HashRealAttr
   Hash.HashRealEnum Tree.Heap Tree.Ops Tree.Script Tree.Load Tree.MergeSpec Tree.MergePure Tree.MergePureProofsBase
   Tree.MergePureProofs Tree.MergePureProofsMain Tree.MergePureProofsKeys Tree.LoadRefineBase Tree.LoadRefineTop
-  Tree.LoadRefineIndex Tree.LoadUnionReal.
+  Tree.LoadRefineIndex Tree.LoadUnionReal Tree.MergeGoodReal.
 From AV Require Import Xml.Lexer Xml.Parser Xml.Serializer Xml.TablesOk Xml.StrictValidDef Xml.LoadRecordsRegular.
 Open Scope list_scope.
 Open Scope N_scope.
@@ -90,3 +90,25 @@ Theorem C09_merge_union_real :
                  (covers gs M -> hperm (erase ta) (expected None M)) /\
                  (forall f, In f gs -> hperm (hproj f (erase ta)) (pview f M)).
 Proof. exact union_real. Qed.
+
+(* ---- [F] the class is inhabited on the regenerated tables by a master with the usual ARXML structure:
+        AUTOSAR / AR-PACKAGES (bag, splittable) / AR-PACKAGE "Pkg" / ELEMENTS (bag, splittable) / SYSTEM "A" in file 0 and
+        SYSTEM "B" in file 1, version AUTOSAR_00051; its paths are consistent; the unconditional theorem instantiated, and
+        the same by computation *)
+Theorem C09_real_class_nonvacuous :
+  Good RT RealM.DEFREF RealM.V RealM.master /\ PathsOK RT RealM.master [0; 1].
+Proof. exact (conj RealM.real_master_good RealM.real_paths_ok). Qed.
+
+Theorem C09_real_union :
+  exists os w,
+    load_views RT RealM.V RealM.DEFREF 0 RealM.master (fun _ => RealM.V) [0; 1] RealM.new_world = Val (os, w) /\
+    Forall2 (fun g o => o = OK g) [0; 1] os /\
+    exists ta, abs_model w 0 = Some (erase ta) /\ hperm (erase ta) (expected None RealM.master).
+Proof. exact RealM.real_union. Qed.
+
+Theorem C09_real_union_computed :
+  match load_views RT RealM.V RealM.DEFREF 0 RealM.master (fun _ => RealM.V) [0; 1] RealM.new_world with
+  | Val (os, w) => (os, abs_model w 0)
+  | _ => ([], None)
+  end = ([OK 0; OK 1], Some (expected None RealM.master)).
+Proof. exact RealM.real_union_computed. Qed.
